@@ -244,6 +244,42 @@ def luaToRespList (q : Quirks) : List LuaVal → List Frame
   | v :: t => if v.isNil then [] else luaToResp q v :: luaToRespList q t
 end
 
+/-! ### The same conversion with the depth limit of `lua_value_to_resp(value, depth)`
+
+The conversion recurses once per level of tables; like the parser (`parse_frame`, `MAX_NESTING`) it stops when more than `limit`
+tables surround a value: such a return value has no reply form (`none`; the script's reply is then the error
+`ERR reached lua stack limit`).  A table that contains itself is not a `LuaVal` (those are finite trees): it is deeper than every
+limit.  Elements after the first `nil` are never looked at, as in `luaToResp`. -/
+
+mutual
+def luaToRespD (q : Quirks) (limit : Nat) : LuaVal → Nat → Option Frame
+  | .table xs, d =>
+    if d > limit then none else
+    match luaToRespListD q limit xs (d + 1) with
+    | none => none
+    | some items => some (if q.emptyTableIsNil && items.isEmpty then .nullBulk else .array items)
+  | v, d => if d > limit then none else some (luaToResp q v)
+def luaToRespListD (q : Quirks) (limit : Nat) : List LuaVal → Nat → Option (List Frame)
+  | [], _ => some []
+  | v :: t, d =>
+    if v.isNil then some [] else
+    match luaToRespD q limit v d, luaToRespListD q limit t d with
+    | some f, some fs => some (f :: fs)
+    | _, _ => none
+end
+
+mutual
+/-- how many levels of tables lie below a value on the deepest path the conversion follows -/
+def nest : LuaVal → Nat
+  | .table xs => nestList xs
+  | _ => 0
+def nestList : List LuaVal → Nat
+  | [] => 0
+  | v :: t => if v.isNil then 0 else max (nest v + 1) (nestList t)
+end
+
+def stackLimitErr : Frame := .error (strBytes "ERR reached lua stack limit")
+
 /-! ### Call programs -/
 
 /-- An argument of `redis.call`: a string literal, `ARGV[i]`, `KEYS[i]` (1-based) or `unpack(ARGV)`. -/
@@ -405,6 +441,15 @@ def eval (q : Quirks) (kq : KS.Quirks) (s : KS.Store) (db now : Nat) (keys argv 
   | (s', .ok rs) =>
     match evalRet (mkEnv q keys argv) rs p.ret with
     | some v => (s', luaToResp q v)
+    | none => (s', scriptErr)
+
+/-- EVAL with the reply-depth limit: the script runs exactly as in `eval`; only the conversion of its return value can now fail. -/
+def evalB (q : Quirks) (kq : KS.Quirks) (limit : Nat) (s : KS.Store) (db now : Nat) (keys argv : List Bytes) (p : Program) : KS.Store × Frame :=
+  match runSteps q kq (mkEnv q keys argv) db now s [] p.steps with
+  | (s', .error m) => (s', .error m)
+  | (s', .ok rs) =>
+    match evalRet (mkEnv q keys argv) rs p.ret with
+    | some v => (s', (luaToRespD q limit v 0).getD stackLimitErr)
     | none => (s', scriptErr)
 
 /-- the script cache: SHA-1 (as sent by the client) → program -/
